@@ -175,7 +175,7 @@ fn to_raw_record(prog: &GProgram, e: &GExpr) -> Option<GExpr> {
     }
 }
 
-pub const MUTATIONS: [&str; 20] = [
+pub const MUTATIONS: [&str; 22] = [
     "record_drop_field",
     "record_duplicate_field",
     "record_rename_field",
@@ -196,6 +196,8 @@ pub const MUTATIONS: [&str; 20] = [
     "utxo_ref_literal_at_limits",
     "constructor_over_alias_of_a_primitive",
     "property_path_three_records_deep",
+    "asset_policy_from_env",
+    "publish_with_half_a_script",
 ];
 
 /// returns the mutated program or None when the mutation does not apply to this program
@@ -521,6 +523,32 @@ pub fn mutate(case: &Case, kind: usize, t: &mut Tape) -> Option<GProgram> {
                 }
                 None => false,
             }
+        }
+        "asset_policy_from_env" => {
+            // an asset whose policy (or name) is an env value, and a call of that asset
+            if prog.env.iter().any(|e| e.0 == "envpol") {
+                return None;
+            }
+            prog.env.push(("envpol".into(), Ty::Bytes));
+            let decl = if t.flag() { "asset Tokz = envpol . \"TOKZ\" ;" } else { "asset Tokz = 0xabababababababababababababababababababababababababababab . envpol ;" };
+            prog.raw_decls.push(decl.split(' ').map(|s| s.to_string()).collect());
+            let tx = &mut prog.txs[txi];
+            match tx.outputs.first_mut() {
+                Some(o) => {
+                    o.amount = GExpr::Add(Box::new(o.amount.clone()), Box::new(GExpr::Raw("Tokz(1)".into())));
+                    o.optional = false;
+                    true
+                }
+                None => false,
+            }
+        }
+        "publish_with_half_a_script" => {
+            // a publish block that gives a script without a version, or a version without a script
+            prog.raw_decls.push(vec!["party".into(), "Qz".into(), ";".into()]);
+            let half = if t.flag() { "script : 0xabcd ," } else { "version : 2 ," };
+            let text = format!("tx publish_half ( ) {{ input source {{ from : Qz , min_amount : Ada ( 5000000 ) , }} cardano::publish {{ to : Qz , amount : Ada ( 2000000 ) , {} }} output {{ to : Qz , amount : source - Ada ( 2000000 ) - fees , }} }}", half);
+            prog.raw_decls.push(text.split(' ').map(|s| s.to_string()).collect());
+            true
         }
         "property_path_three_records_deep" => {
             // three record types nested in one another, declared in any order, read through a parameter
